@@ -100,8 +100,11 @@ def check_case(case):
     import bldfm.interface as iface
     from bldfm import config as rt
 
+    import copy
+
     out = Outcome()
     cfg = _config(case)
+    cfg_before = copy.deepcopy(cfg)
     ntow, nt = case["ntow"], case["nt"]
     names = [t.name for t in cfg.towers]
     out.label("strategy=" + case["strategy"], f"workers={case['workers']}", f"parent-threads={case['parent_threads']}",
@@ -208,6 +211,8 @@ def check_case(case):
         env.reset_globals()
         shutil.rmtree(".bldfm_cache", ignore_errors=True)
 
+    if cfg != cfg_before:
+        out.bad("a driver modified the configuration object it was given")
     # submission order of the strategy's tasks and whether the schedule inverts it
     if case["strategy"] == "towers":
         order = [sum(case["delays"][k]) for k in range(ntow)]
